@@ -1,5 +1,6 @@
 import CirqVerif.Props.C06Rules
 import CirqVerif.Props.C19b
+import CirqVerif.Spec.GateDocs2
 /-!
 # C04 — the decomposition rules of the gate library equal the documented matrices, for every parameter
 
@@ -354,6 +355,59 @@ theorem C04_decompose_cczpow (E : Env A R) (h : LawfulQ E) (t s : A) :
   eval_mul
   generalize E.ph (t * (E.halfA * E.halfA)) = g at *
   generalize E.ph (-(t * (E.halfA * E.halfA))) = gb at *
+  mat_eq
+
+/-- `ControlledGate(XPowGate(t, s))` decomposes into `CNOT**t` and `Z**(t·s)` on the control: the global shift of the sub-gate is a
+relative phase of the control -/
+theorem C04_controlled_shift_x (E : Env A R) (h : Lawful E) (t s : A) :
+    blockBottomRight 4 (xpow E t s) = mul (kron (zpow E (t * s) 0) (eye 2)) (cxpow E t 0) := by
+  have h0 : E.ph (t * 0) = 1 := by rw [show t * 0 = (0 : A) by grind]; exact h.ph_zero
+  have h0' : E.ph (t * s * 0) = 1 := by rw [show t * s * 0 = (0 : A) by grind]; exact h.ph_zero
+  have h2 : E.ph (t * (s + E.halfA)) = E.ph (t * s) * E.ph (t * E.halfA) := by rw [← h.ph_add]; congr 1; grind
+  simp only [xpow, cxpow, zpow, xblock, h0, h0', h2]
+  unfold_mats
+  simp
+  eval_mul
+  mat_eq
+
+/-- `ControlledGate(ZPowGate(t, s))` decomposes into `CZ**t` and `Z**(t·s)` on the control -/
+theorem C04_controlled_shift_z (E : Env A R) (h : Lawful E) (t s : A) :
+    blockBottomRight 4 (zpow E t s) = mul (kron (zpow E (t * s) 0) (eye 2)) (czpow E t 0) := by
+  have h0 : E.ph (t * 0) = 1 := by rw [show t * 0 = (0 : A) by grind]; exact h.ph_zero
+  have h0' : E.ph (t * s * 0) = 1 := by rw [show t * s * 0 = (0 : A) by grind]; exact h.ph_zero
+  simp only [czpow, zpow, h0, h0']
+  unfold_mats
+  simp
+  eval_mul <;> mat_eq
+
+/-- `ControlledGate(CZPowGate(t, s))` decomposes into `CCZ**t` and `Z**(t·s)` on the (new) control -/
+theorem C04_controlled_shift_cz (E : Env A R) (h : Lawful E) (t s : A) :
+    blockBottomRight 8 (czpow E t s) = mul (kron (zpow E (t * s) 0) (eye 4)) (cczpow E t 0) := by
+  have h0 : E.ph (t * 0) = 1 := by rw [show t * 0 = (0 : A) by grind]; exact h.ph_zero
+  have h0' : E.ph (t * s * 0) = 1 := by rw [show t * s * 0 = (0 : A) by grind]; exact h.ph_zero
+  simp only [czpow, cczpow, zpow, h0, h0']
+  unfold_mats
+  simp
+  eval_mul <;> mat_eq
+
+/-- `CYPowGate._decompose_`: `X**½` on the target, `CZPowGate(t, s)`, `X**-½` on the target -/
+theorem C04_decompose_cypow (E : Env2 A R) (h : LawfulQ8 E.toEnv) (t s : A) :
+    mul (kron (eye 2) (xpow E.toEnv (-E.halfA) 0)) (mul (czpow E.toEnv t s) (kron (eye 2) (xpow E.toEnv E.halfA 0))) = cypow E t s := by
+  obtain ⟨hzb, c1, s1, c2, s2⟩ := quarter_facts h
+  have hI := h.I_sq; have hh := h.half_def; have hq := h.isq2_sq
+  have hz := h.ph_quarter
+  have p1 : E.ph (E.halfA * (0 + E.halfA)) = E.isq2 * (1 + E.I) := by rw [show E.halfA * (0 + E.halfA) = E.halfA * E.halfA by grind]; exact hz
+  have p2 : E.ph (-E.halfA * (0 + E.halfA)) = E.isq2 * (1 - E.I) := by rw [show -E.halfA * (0 + E.halfA) = -(E.halfA * E.halfA) by grind]; exact hzb
+  have hc := h.cos_def (t * E.halfA); have hs := h.sin_def (t * E.halfA)
+  have h5 := ph_neg_mul h.toLawful (t * E.halfA)
+  have h6 := ph_half_sq h.toLawful t
+  simp only [cypow, czpow, xpow, yblock, c1, s1, c2, s2, p1, p2, hc, hs]
+  rw [← h6]
+  unfold_mats
+  simp
+  eval_mul
+  generalize E.ph (t * E.halfA) = g at *
+  generalize E.ph (-(t * E.halfA)) = gb at *
   mat_eq
 
 end CirqVerif.GateDocs
